@@ -18,6 +18,8 @@ NUM_SPELLINGS = [
     ("1234567", 1234567), ("3.141593", 3.141593), ("16777216", 16777216), ("1E-3", 0.001), ("2.5E-2", 0.025), ("123456.75", 123456.75),
 ]
 INT_SPELLINGS = [s for s in NUM_SPELLINGS if float(s[1]) == int(s[1]) and "E" not in s[0] and "." not in s[0]]
+# Color BASIC accepts the two-character relational operators in either order
+REL_OPS = ["=", "<>", "<", ">", "<=", ">=", "=<", "=>", "<=", ">="]
 HEX_SPELLINGS = ["0", "1", "F", "1F", "FF", "100", "7FFF", "8000", "FFFF", "A5", "0F"]
 
 
@@ -229,7 +231,7 @@ class Gen:
     def num_fn(self, depth):
         names_ = ["ABS", "SGN", "INT", "SQR", "SIN", "COS", "ATN", "LEN", "ASC", "VAL", "INSTR", "FIX", "EXP", "LOG", "TAN"]
         if self.device_fn:
-            names_ += ["BUTTON", "JOYSTK", "POINT"]
+            names_ += ["BUTTON", "JOYSTK", "POINT", "PEEK", "RND", "ERNO"]
         f = self.choice(names_)
         if f == "JOYSTK" and self.on("no_joystk"):
             f = "BUTTON"
@@ -244,6 +246,11 @@ class Gen:
                 self.n_conv += 1
         if f in ("ABS", "SGN", "INT", "FIX", "SIN", "COS", "ATN"):
             return ["fn", f, [self.num(depth)]]
+        if f == "ERNO":
+            return ["fn", "ERNO", []]
+        if f in ("PEEK", "RND"):
+            # values outside the program's control: structural checks only (the reference interpreters leave the domain)
+            return ["fn", f, [self.num(depth) if self.chance(1, 2) else self.integer(0)]]
         if f == "TAN":
             return ["fn", "TAN", [["bin", "/", self.num_lit(integer=True), ["num", "16", 16]]]]
         if f == "SQR":
@@ -320,8 +327,8 @@ class Gen:
         r = self.d(st.integers(0, 11))
         if depth <= 0 or r < 5:
             if r % 5 == 4 and self.strings:
-                return ["scmp", self.choice(["=", "<>", "<", ">", "<=", ">="]), self.string(1, True), self.string(1, True)]
-            return ["cmp", self.choice(["=", "<>", "<", ">", "<=", ">="]), self.sumlevel(depth), self.sumlevel(depth)]
+                return ["scmp", self.choice(REL_OPS), self.string(1, True), self.string(1, True)]
+            return ["cmp", self.choice(REL_OPS), self.sumlevel(depth), self.sumlevel(depth)]
         if r < 7:
             self.op("AND")
             return ["band", self.cond(depth - 1, False), self.cond(depth - 1, False)]
